@@ -134,6 +134,11 @@ def inputs_for(tier: str, rng) -> list[tuple[bytes, int]]:
             if url[n:n + 1] == b"0":
                 data.append(bytes(9) + bytes([n]) + url)
                 data.append(b"\x01\x02\x03\x04\x05\x06\x07\x08\x0e\x0f" + bytes([n]) + url + b" tail")
+    # UTF-16 runs separated / followed / preceded by 1..6 NUL bytes, runs of odd byte length, a lone trailing byte
+    u16 = lambda t: b"".join(bytes([c, 0]) for c in t)          # noqa: E731
+    for n in range(0, 7):
+        data += [u16(b"kernel32.dll") + bytes(n) + u16(b"VirtualAlloc"), b"x" + bytes(n) + u16(b"http://evil-site.net/a"), u16(b"powershell -e") + bytes(n) + b"A",
+                 u16(b"evil-site.net")[:-1] + bytes(n) + u16(b"cmd.exe /c"), bytes(n) + u16(b"1.2.3.4 and more") + bytes(n)]
     # %uXXXX escapes (JavaScript unescape): every plane boundary and the surrogate range, both hex cases, truncated forms
     for cp in (0x0, 0x41, 0x7f, 0x80, 0xff, 0x100, 0x7ff, 0x800, 0xd7ff, 0xd800, 0xd9eb, 0xdbff, 0xdc00, 0xdfff, 0xe000, 0xfffe, 0xffff):
         for fmt in (b"%%u%04x", b"%%u%04X", b"%%U%04x"):
